@@ -24,6 +24,7 @@ macrobody stops the run.  The sweep also runs on decks outside the model
 referenced by cells).'''
 import json
 import random
+import re
 
 import numpy as np
 
@@ -297,6 +298,7 @@ def render(deck):
         opts = f' imp:n={c["imp"]}'
         if c.get('trcl'):
             opts += f' trcl=({c["trcl"]})'
+        opts += c.get('opts', '')
         lines.append(f'{c["id"]} 0 {expr}{opts}')
     lines.append('')
     for s in deck['surfs']:
@@ -429,8 +431,13 @@ def oracle(deck, args, conv, t4, rng):
         if deck.get('fault') in ('missing', 'nocell', 'allempty', 'weird') \
                 or not good_flags:
             return out          # not a valid deck: any loud stop is fine
-        if conv.exc == 'ValueError' and not written_possible(deck, dedup):
+        if conv.exc == 'ValueError' and all('lits' in c for c in deck['cells']) \
+                and not written_possible(deck, dedup):
             return out
+        if conv.exc == 'ValueError' and 'lits' not in deck['cells'][0] \
+                and 'iterable argument is empty' in conv.msg:
+            return out          # sweep-only stream: every written volume was
+            # removed as patently empty (duplicate planes with opposite senses)
         if conv.exc == 'ValueError' and dedup and conflicting_kinds(last):
             return out          # coincident surfaces flagged * and +: a
             # repaired converter may refuse to merge them (the present code
@@ -456,6 +463,10 @@ def oracle(deck, args, conv, t4, rng):
                     f'{len(t4.boundary)}'))
     points = sample_points(rng)
     written_cells = {vid for vid, v in t4.volumes.items() if not v['fictive']}
+    for v in t4.volumes.values():       # "(universe cell, container)" of a
+        if not v['fictive']:            # volume made by developing a FILL
+            written_cells.update(int(x) for x in
+                                 re.findall(r'\d+', v.get('comment') or ''))
     users = {}
     for c in deck['cells']:
         if c['imp'] == 0:
@@ -483,7 +494,7 @@ def oracle(deck, args, conv, t4, rng):
                  and (same_locus(deck, s, t4, sid, points)
                       or any(same_locus(deck, s, t4, sid, points,
                                         trcl_shift(c))
-                             for c in users.get(k, []) if c.get('trcl')))]
+                             for c in users.get(k, []) if trcl_shift(c)))]
         if not match:
             out.append((None, f'ALL_COMPLETE {kind} {sid}: SURF {sid} '
                         f'({t4.surfaces[sid][0]}) is not the locus of any '
@@ -515,7 +526,10 @@ def conflicting_kinds(last):
 
 
 def trcl_shift(c):
-    return [float(x) for x in c['trcl'].split()]
+    '''Translation applied to the surfaces of the cell: its TRCL, or the
+    transformation of the FILL that places its universe.'''
+    text = c.get('trcl') or c.get('fillshift')
+    return [float(x) for x in text.split()] if text else None
 
 
 def written_possible(deck, dedup):
@@ -557,6 +571,12 @@ def absent_class(deck, dedup, sid, last, users, written_cells):
     if s is None:
         copy = trcl_copies(deck).get(sid)
         if copy is None:
+            if dedup and sid > max(last) and any(
+                    c.get('fillshift') and any(
+                        last[k]['flag'] and last[k]['mcnp'] == 1
+                        for k in cell_refs(deck, c) if k in last)
+                    for c in deck['cells']):
+                return 'bc_on_deduplicated_fill_copy'
             return None
         cell, orig = copy
         o = last.get(orig)
@@ -577,6 +597,8 @@ def absent_class(deck, dedup, sid, last, users, written_cells):
         return 'bc_on_unused_surface'
     if all(c.get('trcl') for c in live):
         return 'bc_on_trcl_original_surface'
+    if all(c.get('fillshift') for c in live):
+        return 'bc_on_fill_original_surface'
     return None
 
 
@@ -600,6 +622,18 @@ def witness(kind):
     elif kind == 'trcl':
         surfs = base + [px0(2, '*')]
         cells = [{'id': 1, 'lits': [-1, 2, -4], 'imp': 1, 'trcl': '1 0 0'}]
+    elif kind == 'fill':
+        so2 = {'id': 4, 'flag': '*', 'text': 'so 2', 'mcnp': 1, 'cls': 900,
+               'aux': [], 'single': True, 'locus': 'so2'}
+        surfs = [other(1, '', 'px 5', ('PLANEX', (5.0,))), px0(2, ''),
+                 other(3, '', 'py 3', ('PLANEY', (3.0,))), so2]
+        ucell = lambda i, e: {'id': i, 'imp': 1, 'expr': e, 'refs': [4],
+                              'opts': ' u=1', 'fillshift': '1 0 0'}
+        cells = [{'id': 1, 'imp': 1, 'expr': '-1 2 -3', 'refs': [1, 2, 3],
+                  'opts': ' fill=1 (1 0 0)'}, ucell(2, '-4'), ucell(3, '4'),
+                 {'id': 5, 'imp': 0, 'expr': '1', 'refs': [1]}]
+        return {'surfs': surfs, 'cells': cells, 'trs': {}, 'fault': None,
+                'feature': 'fill'}
     elif kind == 'trclskipped':
         surfs = base + [px0(2, '*')]
         cells = [{'id': 1, 'lits': [-1, 2, -4], 'imp': 1},
@@ -616,7 +650,9 @@ WITNESSES = [('bc_on_deduplicated_surface', 'dedup'),
              ('bc_on_unused_surface', 'unused'),
              ('bc_on_trcl_original_surface', 'trcl'),
              ('bc_on_deduplicated_trcl_copy', 'trclcopy'),
-             ('bc_on_unused_trcl_copy', 'trclskipped')]
+             ('bc_on_unused_trcl_copy', 'trclskipped'),
+             ('bc_on_fill_original_surface', 'fill'),
+             ('bc_on_deduplicated_fill_copy', 'fill')]
 
 
 # ---- richer decks for the sweep (outside the model) ------------------------
@@ -645,7 +681,9 @@ def gen_rich(rng):
         s['tr'] = 3
     extra = ids[n:]
     feature = rng.choice(['union', 'compl', 'trcl', 'cone1', 'macro', 'dup',
-                          'plain'])
+                          'plain', 'fill'])
+    if feature == 'fill' and len(surfs) >= 3:
+        return gen_fill(rng, surfs, trs)
     if feature == 'cone1':
         surfs.append({'id': extra.pop(), 'flag': rng.choice(['*', '+', '']),
                       'text': 'kz 0 1 1', 'mcnp': 1, 'single': False,
@@ -691,6 +729,37 @@ def gen_rich(rng):
                   'refs': [sids[0]]})
     return {'surfs': surfs, 'cells': cells, 'trs': trs, 'fault': None,
             'feature': feature}
+
+
+def gen_fill(rng, surfs, trs):
+    '''A container cell filled with a universe of two cells split by one
+    surface, the FILL with or without a translation.'''
+    rng.shuffle(surfs)
+    split, *rest = surfs
+    if not any(s['flag'] for s in surfs) or rng.random() < 0.5:
+        split['flag'] = rng.choice('*+')
+    k = rng.randint(1, min(3, len(rest)))
+    box = [s['id'] if rng.random() < 0.5 else -s['id'] for s in rest[:k]]
+    shift = rng.choice([None, None, '1 0 0', '0 2 0', '0.5 0.5 -1'])
+    fill = ' fill=1' + (f' ({shift})' if shift else '')
+    extra = [s['id'] for s in rest[k:k + 1]]
+
+    def ucell(cid, lits):
+        c = {'id': cid, 'imp': 1, 'expr': ' '.join(map(str, lits)),
+             'refs': sorted({abs(x) for x in lits}), 'opts': ' u=1'}
+        if shift:
+            c['fillshift'] = shift
+        return c
+    cells = [{'id': 1, 'imp': 1, 'expr': ' '.join(map(str, box)),
+              'refs': sorted({abs(x) for x in box}), 'opts': fill},
+             ucell(2, [-split['id']] + [-x for x in extra]),
+             ucell(3, [split['id']]),
+             {'id': 4, 'imp': 0, 'expr': str(rest[0]['id']),
+              'refs': [rest[0]['id']]}]
+    if extra and rng.random() < 0.5:
+        cells.insert(3, ucell(5, [-split['id'], extra[0]]))
+    return {'surfs': surfs, 'cells': cells, 'trs': trs, 'fault': None,
+            'feature': 'fill'}
 
 
 # ---- unit ties -------------------------------------------------------------
